@@ -35,6 +35,7 @@ const W_STUCK_LOCAL_SINK: u64 = 1 << 20;
 const W_OPEN_ENDED_PEER: u64 = 1 << 21;
 const W_WRITE_ZERO: u64 = 1 << 22;
 const W_COALESCED: u64 = 128;
+const W_CONN_ENDED: u64 = 1 << 23;
 
 #[derive(Default)]
 struct Local {
@@ -285,6 +286,12 @@ enum PeerEv {
     Push(Vec<u8>),
     Finish,
     Reset,
+    /// the connection ends under the bridge: the peer closes the WebSocket
+    WsClose,
+    /// ... the transport fails (both directions)
+    Cut,
+    /// ... the peer sends a message that is not a frame
+    Garbage,
 }
 
 #[derive(Clone, Debug)]
@@ -330,6 +337,10 @@ fn scenarios(thorough: bool) -> Vec<Scn> {
     // it carries no bytes and is not the end of the stream
     v.push(Scn { name: "peer sends an empty Push between data", local_out: 2, peer: vec![p(b"\xb1\xb2"), p(b""), p(b"\xb3"), PeerEv::Finish], peer_rwnd: 4, lazy_ack: false, stuck: "", chunk: 0, buffered: false, write_zero: false });
     // a fast local producer: three 50 000-byte reads are ready at once (frame size limits, per-frame credit)
+    // the connection ends under the bridge, at every point the explorer can put it (a writer parked on credit included)
+    v.push(Scn { name: "connection ends mid-transfer: peer closes the WebSocket", local_out: 6, peer: vec![p(b"\xb1\xb2"), PeerEv::WsClose], peer_rwnd: 2, lazy_ack: true, stuck: "", chunk: 0, buffered: false, write_zero: false });
+    v.push(Scn { name: "connection ends mid-transfer: transport failure", local_out: 6, peer: vec![p(b"\xb1\xb2"), PeerEv::Cut], peer_rwnd: 2, lazy_ack: true, stuck: "", chunk: 0, buffered: false, write_zero: false });
+    v.push(Scn { name: "connection ends mid-transfer: invalid frame", local_out: 6, peer: vec![p(b"\xb1\xb2"), PeerEv::Garbage], peer_rwnd: 2, lazy_ack: true, stuck: "", chunk: 0, buffered: false, write_zero: false });
     v.push(Scn { name: "fast local producer, 150 000 B ready at once, window 1", local_out: 150_000, peer: vec![PeerEv::Finish], peer_rwnd: 1, lazy_ack: true, stuck: "", chunk: 50_000, buffered: false, write_zero: false });
     if thorough {
         v.push(Scn { name: "peer finishes first, long local tail", local_out: 9, peer: vec![PeerEv::Finish], peer_rwnd: 2, lazy_ack: true, stuck: "", chunk: 0, buffered: false, write_zero: false });
@@ -374,6 +385,7 @@ fn exec(sc: &Scn, render: bool) -> RunOutput {
     let mut peer_sent: Vec<u8> = Vec::new();
     let mut peer_finished = false;
     let mut peer_reset = false;
+    let mut conn_ended = false;
     let mut horizon = false;
     let mut log: Vec<String> = Vec::new();
     let mut established = false;
@@ -466,6 +478,19 @@ fn exec(sc: &Scn, render: bool) -> RunOutput {
                             raw.send(&RFrame::Reset { id: F });
                             peer_reset = true;
                         }
+                        PeerEv::WsClose => {
+                            raw.send_msg(penguin_mux::ws::Message::Close);
+                            conn_ended = true;
+                        }
+                        PeerEv::Cut => {
+                            w.sim.link.cut(0);
+                            w.sim.link.cut(1);
+                            conn_ended = true;
+                        }
+                        PeerEv::Garbage => {
+                            raw.send_bytes(&[0x7f, 0, 0, 0, 1]);
+                            conn_ended = true;
+                        }
                     }
                     peer_next += 1;
                 }
@@ -535,7 +560,7 @@ fn exec(sc: &Scn, render: bool) -> RunOutput {
         if l.inn.len() > peer_sent.len() || l.inn[..] != peer_sent[..l.inn.len()] {
             push_viol(&mut viol, "relay.mux-to-local", format!("bytes written to the local side {} are not a prefix of what the peer sent {}", hx(&l.inn), hx(&peer_sent)));
         }
-        if l.shutdown_ok && !(peer_finished || peer_reset) {
+        if l.shutdown_ok && !(peer_finished || peer_reset || conn_ended) {
             push_viol(&mut viol, "halfclose.spurious-local-shutdown", "the local side was shut down although the peer has neither finished nor reset the stream".into());
         }
         if finish_from_e && !l.eof_returned {
@@ -597,12 +622,37 @@ fn exec(sc: &Scn, render: bool) -> RunOutput {
             other => push_viol(&mut viol, "error.write-zero", format!("the local sink accepts no more bytes (poll_write returns Ok(0)); the bridge must complete with WriteZero, got {other:?}")),
         }
     }
+    if conn_ended {
+        wit |= W_CONN_ENDED;
+    }
     match (&l.err, &res.0) {
+        // the connection ended under the bridge (and no local operation failed): the bridge must complete by itself,
+        // with Ok (everything that was delivered relayed, local side shut down) or with the stream's BrokenPipe
+        (None, r) if conn_ended => match r {
+            None => {
+                if !horizon && sc.stuck.is_empty() {
+                    push_viol(&mut viol, "bridge.hang-after-connection-end", format!("the connection ended ({:?}) and nothing is left to run, yet the bridge future has not completed: local produced {}/{} consumed {}, written to local {}, local shutdown={}", sc.peer.last(), l.produced, l.out.len(), l.consumed, l.inn.len(), l.shutdown_ok));
+                }
+            }
+            Some(Ok((r, wn))) => {
+                if *r != l.inn.len() || *wn < got_pushes.len() || *wn > l.consumed {
+                    push_viol(&mut viol, "result.counts", format!("bridge returned ({r}, {wn}) after the connection ended; bytes relayed mux->local {}, local->mux on the wire {} (consumed from the local side {})", l.inn.len(), got_pushes.len(), l.consumed));
+                }
+                if !l.shutdown_ok {
+                    push_viol(&mut viol, "halfclose.no-local-shutdown", "bridge completed Ok after the connection ended but the local side was never shut down".into());
+                }
+            }
+            Some(Err((k, msg))) => {
+                if *k != io::ErrorKind::BrokenPipe {
+                    push_viol(&mut viol, "bridge.spurious-error", format!("the connection ended; the bridge failed with {k:?} ({msg}) instead of BrokenPipe"));
+                }
+            }
+        },
         (Some((site, kind)), r) => {
             wit |= W_ERR_INJECTED;
             match r {
                 Some(Err((k, _))) if k == kind || l.errs.contains(k) => {}
-                Some(Err((k, _))) if peer_reset && *k == io::ErrorKind::BrokenPipe => {}
+                Some(Err((k, _))) if (peer_reset || conn_ended) && *k == io::ErrorKind::BrokenPipe => {}
                 Some(other) => push_viol(&mut viol, &format!("error.wrong-result.{site}"), format!("the local {site} failed with {kind:?}; the bridge completed with {other:?}")),
                 None => push_viol(
                     &mut viol,
@@ -673,7 +723,7 @@ fn exec(sc: &Scn, render: bool) -> RunOutput {
         if let Some(f) = m.verif_flow_digest().into_iter().find(|f| f.id == F && f.kind == 1) {
             let delivered_acks = acked_total; // everything sent has been delivered at quiescence
             let expect = i64::from(sc.peer_rwnd) + i64::from(delivered_acks) - i64::from(n_pushes);
-            if i64::from(f.credit) != expect && !horizon {
+            if i64::from(f.credit) != expect && !horizon && !conn_ended {
                 push_viol(&mut viol, "credit.equation", format!("send credit is {} but window {} + returned {delivered_acks} - frames sent {n_pushes} = {expect}", f.credit, sc.peer_rwnd));
             }
         }
@@ -690,7 +740,7 @@ fn exec(sc: &Scn, render: bool) -> RunOutput {
             push_viol(&mut viol, "panic", format!("{} panicked: {p}", t.name));
         }
     }
-    if w.task_done(0) {
+    if w.task_done(0) && !conn_ended {
         push_viol(&mut viol, "task.ended", format!("connection task ended: {:?}", w.task_result[0].borrow()));
     }
     let mut h = Fnv::default();
@@ -717,10 +767,11 @@ pub fn run(args: &Args) -> Report {
         fault: 0,
         total_wall: Duration::from_secs(if thorough { 1500 } else { 50 }),
         max_execs_per_case: 20_000_000,
-        required_witnesses: W_PARTIAL_WRITE | W_PENDING | W_ERR_INJECTED | W_COMPLETED_OK | W_HALF_CLOSE_LOCAL_FIRST | W_HALF_CLOSE_PEER_FIRST | W_CREDIT_WAIT | W_COALESCED | W_STUCK_LOCAL_SINK | W_OPEN_ENDED_PEER,
+        required_witnesses: W_PARTIAL_WRITE | W_PENDING | W_ERR_INJECTED | W_COMPLETED_OK | W_HALF_CLOSE_LOCAL_FIRST | W_HALF_CLOSE_PEER_FIRST | W_CREDIT_WAIT | W_COALESCED | W_STUCK_LOCAL_SINK | W_OPEN_ENDED_PEER | W_CONN_ENDED,
         adaptive: thorough,
         witness_names: &[
             ("partial_local_write", W_PARTIAL_WRITE),
+            ("connection_ended_under_the_bridge", W_CONN_ENDED),
             ("pending_answer", W_PENDING),
             ("error_injected", W_ERR_INJECTED),
             ("bridge_completed_ok", W_COMPLETED_OK),
